@@ -808,6 +808,8 @@ FIXED = [
     "10^400/3", "-10^400/3", "(10^400/3) m", "{10^400/3}", "[10^400/3, 10^401]", "1/10^400", "-1/10^400", "(1/10^400) s", "(10^309+1)/7",
     "1e308/3", "1.5e308", "1.7976931348623157e308", "1e16*1.0", "sqrt(2)*1e15", "sqrt(2)*1e16", "1234567.5", "999999.5", "0.00001234",
     "9.9999995e-05", "0.99999996", "123456789.5", "1e-5", "1.0e-5", "1.0e-7 m", "2.5e-7", "5!", "C(5,2)", "{3!, C(6,3)}", "1==1", "true", "false",
+    "{{3!}}", "{{3!, 4}, {1}}", "{{C(4,2), 1}, {2}}", "{3!, {4!}}", "{{{5!}}}", "{{C(n,k) : k in 0..n} : n in 0..3}", "{[0.1+0.2, 1]}", "{{[0.1+0.2, 1]}}",
+    "{x ± 0.1 : x in {0.7, 1}}", "{0.1+0.2, {0.1+0.2}}", "{(1/3) m, {(1/3) m}}", "{#2020-01-31T00:00:00+02:00#}", "floor(#2020-01-31T10:00:00+02:00#)",
     "1.0e-320", "4.9e-324", "2.2250738585072014e-308", "12345678901234567890123", "-12345678901234567890123/1000",
 ]
 
